@@ -387,8 +387,31 @@ func c04Check(c *ctx, root interface{}, in map[string]interface{}) {
 	got := graphCanon(dec)
 	if got != want {
 		c.fail("decoded graph is not isomorphic to the original (sharing or contents differ)", in, diffStr(want, got), c04Class(want, got))
+	} // the same graph through ONE serializer used for every graph of this run (a one-shot call starts
+	// from empty tables: ordinals must not carry over from the graphs before)
+	if g, ok := root.(*GNode); ok {
+		if c04Reused == nil {
+			tm, nm := hessian.ExtractTypeNameMap(genGraph(1, 6, true))
+			c04Reused = hessian.NewSerializer(tm, nm)
+		}
+		var dec2 interface{}
+		o, m := guard(func() error {
+			b2, err := c04Reused.ToBytes(g)
+			if err != nil {
+				return err
+			}
+			dec2, err = c04Reused.ToObject(b2)
+			return err
+		})
+		if o != oOK {
+			c.fail("a serializer used for earlier graphs fails on a graph that a fresh one round-trips", in, o.String()+": "+m, "")
+		} else if got2 := graphCanon(dec2); got2 != want {
+			c.fail("a serializer used for earlier graphs does not return the graph that a fresh one returns", in, diffStr(want, got2), "")
+		}
 	}
 }
+
+var c04Reused hessian.Serializer
 
 func runC04(c *ctx) {
 	if rp, ok := c.extra["replay"].(string); ok {
